@@ -95,6 +95,13 @@ CLAIMED['C04'] = dict(
     note='Trusted: rustc MIR, the driver, 64-bit usize, totality of external callees not on the panic-capable list (their distinct count is in the evidence), layer/slice counts fit u32. Allocation failure (abort) is judged under C12.',
     technique='static analysis: panic-site inventory over the call-graph cone + interval (width) domain + dominance guards + obligation table + SCC/loop-progress classification')
 
+CLAIMED['C12'] = dict(
+    category='other',
+    text='Taint analysis from declared sizes to allocation sinks over the loader cone, value-independent and decided from the code: every allocation sink (with_capacity, vec![x; n], resize/resize_with/reserve, HashMap::with_capacity, read_to_end) gets a byte bound from an interval analysis of its size argument (inter-procedural parameter ranges, dominating constant guards such as .min(CAP)) times rustc\'s element size, and is classified bounded-constant (<= 32 MiB, multiplied by the trip bounds of enclosing loops for in-place growth of parser state), input-justified (length of data already in memory; buffer filled through a bounded reader whose delivered length is compared with the request; read_to_end on take()/zlib) or declared-only (a finding). Growth sinks (push/insert/collect) must sit in loops that are bounded or make ?-propagated progress on the input. Four declared-size allocations found on the pinned tree were repaired by fix: commits; one (add_cel resize_with, D17) is a recorded known finding.',
+    design_ref='DESIGN.md section 4, C12 and section 5',
+    note='Trusted: rustc MIR and layout, the driver, 64-bit usize, flate2 expansion <= ~1032:1, amortised growth of Vec/HashMap. The exact 64 MiB + 8192 B/byte constant is not decided; the sum of bounded-constant sinks is reported.',
+    technique='static analysis: taint from file-field reads to allocation sinks + interval (width) domain + loop classification')
+
 ALL = ['C%02d' % i for i in range(1, 20)]
 
 
